@@ -38,6 +38,9 @@ TS = ['1.2.840.10008.1.2', '1.2.840.10008.1.2.1', '1.2.840.10008.1.2.2']
 MAX_PARALLEL = 16
 
 
+OPTIMIZED_SAMPLE = 1     # the first shard once more under python -O (vf/runner.py)
+
+
 def exhaustive(tier):
     return False
 
